@@ -778,7 +778,7 @@ func seqStr(v int) string {
 }
 
 // check validates the recorded probe history. runErr/exit describe how Run ended.
-func (m *gModel) check(evs []pEv, conc int, finished bool, errNil bool, errClass string, errCode int, cancelled bool) []gVerdict {
+func (m *gModel) check(evs []pEv, conc int, finished bool, errNil bool, errClass string, errCode int, cancelled bool, deadlocked bool) []gVerdict {
 	c := &gChecker{m: m, evs: evs, seenSig: map[string]bool{}, firstDeferAt: map[*gInst]int{}}
 	for _, r := range m.roots {
 		m.res(r)
@@ -913,10 +913,11 @@ func (m *gModel) check(evs []pEv, conc int, finished bool, errNil bool, errClass
 			}
 		}
 	}
-	if !finished {
+	if !finished && !deadlocked {
 		return c.out
 	}
-	// end-of-run obligations
+	// end-of-run obligations (for a deadlocked run only the deferred entries that provably were registered:
+	// a run that hangs before its defers ran has not run them "always")
 	anyStaticFail := false
 	for _, r := range m.roots {
 		if !m.res(r) {
@@ -954,7 +955,7 @@ func (m *gModel) check(evs []pEv, conc int, finished bool, errNil bool, errClass
 			}
 		}
 	}
-	if cancelled {
+	if cancelled || deadlocked {
 		return c.out
 	}
 	if !anyStaticFail {
